@@ -55,6 +55,10 @@ ANNOTATION_SETS = [(), ("SelfAdjoint",), ("PSD",), ("Stiefel",), ("Unitary",)]
 # C19a: for these (function, structured kind) pairs the selected rule must be the structural one, i.e. a rule whose
 # first operator parameter type is the kind itself (not the generic LinearOperator base case), with the algorithm
 # argument omitted and with every admissible explicit algorithm.
+# kinds whose structural rule only exists for a shape variant (a Product of non-square factors has no factor-wise
+# inverse/determinant: the generic rule is the correct choice there and is not a densification defect of the rule table)
+STRUCTURAL_VARIANT = {("inv", "Product"): "square", ("slogdet", "Product"): "square"}
+
 STRUCTURAL = {
     "inv": ["Kronecker", "BlockDiag", "Diagonal", "Identity", "ScalarMul", "Product", "Permutation", "Triangular"],
     "slogdet": ["Kronecker", "BlockDiag", "Diagonal", "Identity", "ScalarMul", "Product", "Permutation", "Triangular"],
